@@ -509,7 +509,12 @@ def classify(gen, unit, res):
         if not is_proof and ('rlimit' in msg or 'Resource limit' in msg):
             # a resource-limit hit inside a `__canary` copy means `ensures false` was NOT proved there: that is what the canary wants
             txt = ' '.join(t.get('text', '') for sp in d.get('spans', []) for t in sp.get('text', []))
-            if '__canary' in txt:
+            in_canary = '__canary' in txt
+            for sp in d.get('spans', []):      # ... also when the span is a loop or a statement inside the copy: decided by the line's origin
+                ln_ = sp.get('line_start', 0)
+                if 0 < ln_ <= len(gen.origin) and gen.origin[ln_ - 1] and str(gen.origin[ln_ - 1][0]).endswith('#canary'):
+                    in_canary = True
+            if in_canary:
                 f = _describe_failure(gen, unit, d)
                 f['generic_tags'] = list(f['generic_tags']) + ['canary']
                 f['kind'] = 'resource limit in canary copy (false not proved)'
